@@ -17,6 +17,14 @@ open Z80 Z80.GoStore Z80.Gen.CPMGlue Z80.Props.C18
 theorem methods_modelled : Gen.CPMGlue.methods =
     ["IO_In", "IO_Out", "IO_SetStdout", "IO_SetWarnLogger", "Memory_Get", "Memory_Set", "Memory_put"] := by decide
 theorem untranslated_are_constructors : Gen.CPMGlue.untranslated.map (·.1) = ["LoadFile", "New", "NewIO", "NewMemory"] := by decide
+/-- the functions that are NOT translated (constructors, file loading) are, statement by statement, what they were when the model was
+    written: NewMemory allocates a Memory and installs exactly the three pages through `put` (the pages themselves are extracted as
+    Gen.cpmBios); LoadFile puts the file's bytes at Start; NewIO / New only build the values -/
+theorem untranslated_shapes : Gen.CPMGlue.untranslatedShapes = [
+  ("LoadFile", ["assign prog, err := (call os ReadFile name", "if (!= err nil {return err}", "expr (call m put Start prog", "return nil"]),
+  ("New", ["return (call NewMemory, (call NewIO"]),
+  ("NewIO", ["return IO stdout os Stdout warnl (call log New os Stderr \"[WARN][IO]\" 0"]),
+  ("NewMemory", ["assign m := (call new Memory", "expr (call m put 0x0000 bios0000", "expr (call m put 0xfe06 biosFE06", "expr (call m put 0xff03 biosFF03", "return m"])] := by decide
 theorem buf_is_64k : Gen.CPMGlue.arrayLens = [("Memory.buf", 65536)] := by decide
 
 -- ---------------------------------------------------------------------------
